@@ -560,8 +560,8 @@ func main() {
 	}
 	run.Coverage["explanation"] = "every execution is an execution of Go code generated by the working tree's ReadFile+Generate, compiled with the runtime map-order seam; no abstract model is involved"
 	run.Assume = []string{
-		"cases whose generated code does not type-check are excluded here and reported by C12",
-		"unions carry exactly one member; NaN map keys, the Unix-epoch instant and dates outside the UnixNano range are outside the value domain",
+		"cases whose generated code does not type-check are excluded here (none on the unchanged tree; counted in cases_not_compilable_dropped) and reported by C12",
+		"unions carry exactly one member; a float-keyed map holds at most one NaN key (the quiet NaN); the Unix-epoch instant and dates outside the UnixNano range are outside the value domain",
 		"value sets are boundary sets, containers hold at most 3 elements",
 	}
 	run.Finish()
